@@ -14,7 +14,7 @@ def tokNames : List (String × Tok) := [
   ("kronecker_factored", .kronecker_factored), ("linear_initializer", .linear_initializer),
   ("random_monotonic_initializer", .random_monotonic_initializer), ("rtl_layer", .rtl_layer),
   ("torsion", .torsion), ("laplacian", .laplacian), ("calib_hessian", .calib_hessian),
-  ("quantiles", .quantiles), ("uniform", .uniform), ("other", .other)]
+  ("quantiles", .quantiles), ("uniform", .uniform), ("equal_slopes", .equal_slopes), ("other", .other)]
 
 def tokName (t : Tok) : String :=
   match tokNames.find? (fun p => p.2 == t) with
@@ -84,9 +84,9 @@ def showCanon {α} (sh : α → Val) : Except Err α → String
 
 def handlers : List (String × Handler) := [
   ("vfy.LatticeConstraints", fun args => match args with
-    | [a, b, c, d, e, f, g, h, j] => do
+    | [a, b, c, d, e, f, g, h, j, lo, hi] => do
       let r : RawLattice := ⟨← parseVal a, ← parseVal b, ← parseVal c, ← parseVal d, ← parseVal e,
-        ← parseVal f, ← parseVal g, ← parseVal h, ← parseJU j⟩
+        ← parseVal f, ← parseVal g, ← parseVal h, ← parseJU j, ← parseVal lo, ← parseVal hi⟩
       pure (code (latticeConstraints r))
     | _ => none),
   ("vfy.LinearInitializer", fun args => match args with
@@ -104,9 +104,10 @@ def handlers : List (String × Handler) := [
     | [a, b, c] => do pure (code (torsionRegularizer ⟨← parseVal a, ← parseVal b, ← parseVal c⟩))
     | _ => none),
   ("vfy.PWLCalibration", fun args => match args with
-    | [a, b, c, d, e, f, g, h, i, j] => do
+    | [a, b, c, d, e, f, g, h, i, j, k, l, m] => do
       pure (code (pwlCalibration ⟨← parseVal a, ← parseVal b, ← parseVal c, ← parseVal d, ← parseVal e,
-        ← parseVal f, ← parseVal g, ← parseVal h, ← parseVal i, ← parseVal j⟩))
+        ← parseVal f, ← parseVal g, ← parseVal h, ← parseVal i, ← parseVal j, ← parseVal k, ← parseVal l,
+        ← parseVal m⟩))
     | _ => none),
   ("vfy.PWLCalibrationConstraints", fun args => match args with
     | [a, b, c, d, e] => do
@@ -181,6 +182,7 @@ def handlers : List (String × Handler) := [
         | "wrap_single" => some Tfl.Configs.nWrapSingle
         | "linear_monotonicities" => some Tfl.Configs.nLinearMono
         | "float_or_num_keypoints" => some Tfl.Configs.nFloatOr
+        | "as_tuples" => some Tfl.Configs.nAsTuples
         | _ => none
       pure (showVal (Tfl.Configs.valNorm id o v))
     | _ => none),
